@@ -70,3 +70,15 @@ Example C09_replicas_agree_nonvacuous :
    RDeliver 0 [EvBatchConfig 0 2 [ex_k 1; ex_k 2; ex_k 3; ex_k 4] 1; EvEonStarted 1 0 1];
    REnd [] []; RCommit].
 Proof. eexists. split; [reflexivity|]. vm_compute. reflexivity. Qed.
+
+(* On the code as translated on this run (Generated/PowermapFuns.v, from app/powermap.go):
+   Powermap.ValidatorUpdates returns the same list for every iteration order of the map, and
+   DiffPowermaps is the model's function for every pair of iteration orders (whose independence
+   of the orders is C12_diff_apply). *)
+From Verif Require Import Generated.PowermapFuns Proofs.PowermapFuns.
+Theorem C09_translated_validator_updates_order_free :
+  (forall pm e1 e2, NoDup (map fst e1) -> Permutation e1 e2 ->
+                    gen_validator_updates pm e1 = gen_validator_updates pm e2) /\
+  (forall oldpm newpm oe ne, gen_diff_powermaps oldpm newpm oe ne = diff_powermaps_enum oldpm newpm oe ne).
+Proof. split; [exact gen_validator_updates_order_free|exact gen_diff_agrees]. Qed.
+Print Assumptions C09_translated_validator_updates_order_free.
